@@ -1,6 +1,16 @@
 package rules
 
 func init() {
+	reg("C05", &PropSpec{
+		Rules: []Rule{r("W1", RuleW1), r("W2", RuleW2)},
+		Explanation: "Decided on the extracted scanner automaton for all inputs: in each of the 160 states LF and CR take exactly the same arms and so do space and tab (W1: a state that told them apart would behave differently under LF/CR/CRLF or indentation rewriting); the comment sub-machine entered by startComment emits no lexeme event, moves no index, pushes nothing, accepts every byte, and leaves only by popping the frame that startComment pushed - line comments re-dispatch the terminating line end to the interrupted state, block comments do not (W2: comment transparency). Not decided: the positions at which the grammar admits a comment, blank-line idempotence as a bisimulation, parenthesis equivalence (C06), quoting (C17).",
+		Trusted:     trustedCommon,
+	})
+	reg("C17", &PropSpec{
+		Rules: []Rule{r("Q1", RuleQ1), r("S1c,S1f", RuleS1("S1c", "S1f"))},
+		Explanation: "The rejection clauses of the property are decided on the quoted-parameter sub-automaton, found by role (the state entered by the arm that begins a Parameter lexeme on '\"'): a line end or end of input inside quotes is an error arm with no effect, a backslash enters an escape state that continues only on \\ and \" and is an error arm on every other byte, the closing quote emits ParameterEnd at its own position, every other byte stays inside. Plus S1c/S1f on all states: parameter lexemes are well formed and ordered. Not decided: that the decoded value equals what was written (unescapeParameter is a pure string function over all strings).",
+		Trusted:     trustedCommon,
+	})
 	reg("C14", &PropSpec{
 		Rules: []Rule{
 			r("S1b,S1c,S1d,S1f,S1g,S1i", RuleS1("S1b", "S1c", "S1d", "S1f", "S1g", "S1i")),
